@@ -9,6 +9,13 @@ import json, os, re, shutil, subprocess, sys, tempfile, time
 V = os.path.dirname(os.path.dirname(os.path.abspath(__file__)))
 src, name = os.path.abspath(sys.argv[1]), sys.argv[2]
 skip_tests = "--skip-tests" in sys.argv
+# several workers may hold overlapping queues: the first to claim a seed confirms it
+os.makedirs("/tmp/confirm_claimed", exist_ok=True)
+try:
+    os.mkdir("/tmp/confirm_claimed/" + name)
+except FileExistsError:
+    print("already claimed:", name)
+    sys.exit(0)
 out = os.path.join(V, "seeded", name)
 wt = tempfile.mkdtemp(prefix="verif-confirm-"); os.rmdir(wt)
 subprocess.run(["git", "-C", "/repo", "worktree", "add", "--detach", wt, "HEAD"], capture_output=True, check=True)
